@@ -115,7 +115,12 @@ def group_action(ctx, I0):
     def rot_ctor(kind):
         def f(I_, *a, **k):
             r = Record(None, {"ctor": kind}, label="Rotation")
-            r.native_methods["as_quat"] = Native("as_quat", lambda I2: mkarr([alg.Fn("unitquat", kind, len(I2.trace), i) for i in range(4)]))
+            # a stack of rotation vectors / quaternions / angle triples gives a stack of rotations
+            rows = a[-1].shape[0] if a and isinstance(a[-1], np.ndarray) and a[-1].ndim == 2 else None
+            if rows is None:
+                r.native_methods["as_quat"] = Native("as_quat", lambda I2: mkarr([alg.Fn("unitquat", kind, len(I2.trace), i) for i in range(4)]))
+            else:
+                r.native_methods["as_quat"] = Native("as_quat", lambda I2: mkarr([[alg.Fn("unitquat", kind, len(I2.trace), k_, i) for i in range(4)] for k_ in range(rows)]))
             return r
         return Native(kind, f)
     ext = {"scipy.spatial.transform.Rotation.identity": rot_ctor("identity"), "scipy.spatial.transform.Rotation.from_rotvec": rot_ctor("from_rotvec"),
@@ -309,7 +314,8 @@ def angles(ctx):
 
 def quats_single(I_, *a, **k):
     r = Record(None, {}, label="Rotation")
-    r.native_methods["as_quat"] = Native("as_quat", lambda I2: symarr("S", (4,)))
+    rows = a[-1].shape[0] if a and isinstance(a[-1], np.ndarray) and a[-1].ndim == 2 else None      # a stack of rotation vectors
+    r.native_methods["as_quat"] = Native("as_quat", lambda I2: symarr("S", (4,) if rows is None else (rows, 4)))
     return r
 
 
